@@ -502,6 +502,15 @@ def check_tif(rep, ix, rule='R-TIF'):
     rep.ob(rule, f'{T}:TIF_WORD_ALL_FORMAT_WRONG_SEX', 'reversed layout is the same words big-endian', isinstance(v, StructVal) and norm_format(v.format) == ('>', 'LLL'), found=str(v), module=tm)
     rep.ob(rule, f'{T}:TIF_TOTAL_BYTES', 'marker size 12', ix.fold_name(T, 'TIF_TOTAL_BYTES') == 12, module=tm)
     rep.ob(rule, f'{BF}:TIF_LEN_REQUIRED_BYTES', 'file typing needs 12 bytes', ix.fold_name(BF, 'TIF_LEN_REQUIRED_BYTES') == 12, module=ix.module(BF))
+    # byte-order detection: the first marker's `next` word is first-record length + 12, at most 0xFFFF + 12 for a
+    # correctly written file; only a larger value may be taken for a byte-reversed file
+    lim = ix.fold_name(T, 'TIF_FIRST_WORD_LIMIT')
+    rep.ob(rule, f'{T}:TIF_FIRST_WORD_LIMIT', 'largest legal first `next` word = maximum physical record length (0xFFFF) + marker size (12)', lim == 0xFFFF + 12, found=str(lim), required=str(0xFFFF + 12), module=tm)
+    ini = ix.get_func(T, 'TifMarkerRead.__init__')
+    tests = [n for n in walk_no_nested(ini) if isinstance(n, ast.If) and any(_n(x) == 'self.isReversed=True' for x in n.body)]
+    ok = len(tests) == 1 and show(nf(tests[0].test)) == common.nfs('self.tifNext > TIF_FIRST_WORD_LIMIT')
+    rep.ob(rule, f'{T}:TifMarkerRead.__init__', 'markers are taken as byte-reversed only when the first `next` word exceeds that limit', ok,
+           found=_n(tests[0].test) if tests else 'no test', node=ini, module=tm)
     # reader and writer field order
     for fn, fmt in (('_readBigEndian', 'TIF_WORD_ALL_FORMAT'), ('_readLittleEndian', 'TIF_WORD_ALL_FORMAT_WRONG_SEX')):
         f = ix.get_func(T, f'TifMarkerRead.{fn}')
@@ -640,5 +649,5 @@ def run(rep, ix, tier):
     rep.floor('R-C05-SUCC', 10)
     rep.floor('R-C05-LOOP', 14)
     rep.floor('R-C05-SEEK', 16)
-    rep.floor('R-TIF', 16)
+    rep.floor('R-TIF', 18)
     rep.floor('R-C05-FORWARD', 10)
